@@ -23,6 +23,13 @@ Trace events (one list per (program, simulation), merged by the parent), all dat
                                                           precedes the outermost "fuq" of an insertion (C09)
   ["fuqsnap", day, schedule_method, [[class, site, rate], ...]]     follow-up queue in pop order (from a copy)
                                                           at the start of the follow-up schedule's get_workplan
+  ["sched", method, schedule_class, crews, daily_surveys, [[site, required, months, dep_years, planner_years,
+             [[m, d] plan dates], survey_time], ..]]     static planner data when a schedule is built
+  ["request", day, method, [sites whose planner issued a request], queue after the take [[cls, rate, site]..],
+             [planned site ids]]                          one per get_workplan
+  ["sstate", day, method, queue after update [[cls, rate, site]..], follow-up flags | None,
+             planners ([[site, queued, [[year, done]..], report]..] routine / [[site, report]..] follow-up)]
+             report = None | [in_progress, minutes]
 Events keep the order in which the simulator produced them.
 """
 from __future__ import annotations
@@ -269,6 +276,85 @@ def install_wrappers():
             return orig_done(self, *a, **k)
 
         setattr(ScheduledSurveyPlanner, name, done)
+
+    # --- schedule state (C06 / C07 trace conformance; observation only, read from copies) -----------
+    def _q_content(sched):
+        out = []
+        for prio, _cnt, plan in sorted(sched._survey_queue.queue, key=lambda e: (e[0], e[1])):
+            cls, rate = prio if isinstance(prio, tuple) else (prio, 0)
+            out.append([int(cls), float(rate), str(plan.get_site().get_id())])
+        return out
+
+    def _rep_state(rep):
+        return None if rep is None else [1 if rep.survey_in_progress else 0, int(rep.time_surveyed)]
+
+    orig_sched_init = GenericSchedule.__init__
+
+    @functools.wraps(orig_sched_init)
+    def sched_init(self, *a, **k):
+        orig_sched_init(self, *a, **k)
+        try:
+            static = []
+            for pl in self._survey_plans:
+                sp = pl.get_survey_plan()
+                try:
+                    s_time = int(pl.get_site().get_method_survey_time(self._method))
+                except Exception:
+                    s_time = 0
+                static.append([str(pl.get_site().get_id()), int(pl._site_annual_rs), list(pl._deployment_months),
+                               list(pl._deployment_years), list(pl._sim_years),
+                               [] if sp is None else [[d.month, d.day] for d in sp], s_time])
+            EVENTS.append(["sched", self._method, type(self).__name__, int(self._method_crews),
+                           int(self._est_meth_daily_surveys), static])
+        except Exception as e:  # never disturb the run
+            EVENTS.append(["sched-error", getattr(self, "_method", None), repr(e)])
+
+    GenericSchedule.__init__ = sched_init
+
+    orig_gwp = GenericSchedule.get_workplan
+
+    @functools.wraps(orig_gwp)
+    def get_workplan(self, current_date):
+        before = [bool(getattr(pl, "_queued", False)) for pl in self._survey_plans]
+        wp = orig_gwp(self, current_date)
+        try:
+            issued = [str(pl.get_site().get_id()) for pl, was in zip(self._survey_plans, before)
+                      if getattr(pl, "_queued", False) and not was]
+            EVENTS.append(["request", di(current_date), self._method, issued, _q_content(self),
+                           [str(k) for k in wp.site_survey_planners.keys()]])
+        except Exception as e:
+            EVENTS.append(["request-error", getattr(self, "_method", None), repr(e)])
+        return wp
+
+    GenericSchedule.get_workplan = get_workplan
+
+    def wrap_sched_update(cls):
+        orig = cls.__dict__.get("update")
+        if orig is None:
+            return
+
+        @functools.wraps(orig)
+        def update(self, workplan, current_date, *a, **k):
+            out = orig(self, workplan, current_date, *a, **k)
+            try:
+                if isinstance(self, FollowUpMobileSchedule):
+                    flags = sorted(str(s) for s, v in self._site_IDs_in_queue.items() if v)
+                    pls = [[str(pl.get_site().get_id()), _rep_state(pl._active_survey_report)]
+                           for _p, _c, pl in sorted(self._survey_queue.queue, key=lambda e: (e[0], e[1]))]
+                    EVENTS.append(["sstate", di(current_date), self._method, _q_content(self), flags, pls])
+                else:
+                    pls = [[str(pl.get_site().get_id()), 1 if pl._queued else 0,
+                            [[y, c.Surveys_done] for y, c in sorted(pl._surveys_this_year.items())],
+                            _rep_state(pl._active_survey_report)] for pl in self._survey_plans]
+                    EVENTS.append(["sstate", di(current_date), self._method, _q_content(self), None, pls])
+            except Exception as e:
+                EVENTS.append(["sstate-error", getattr(self, "_method", None), repr(e)])
+            return out
+
+        cls.update = update
+
+    wrap_sched_update(GenericSchedule)
+    wrap_sched_update(FollowUpMobileSchedule)
 
     # --- day marker through Program.do_daily_program_deployment ------------------------------
     from programs.program import Program
